@@ -25,20 +25,20 @@ type Verifier struct {
 	contracts *ContractSet
 
 	// per-function state
-	ctx         *Ctx
-	curRoot     *Frame
-	parentOf    map[*Frame]*Frame
-	facts       map[Term]bool
-	knownNonNil map[Term]bool
-	strDeclared bool
-	strLits     map[string]Term
-	substrAx    bool
-	funcIDs     map[*ssa.Function]Term
-	defFuns     map[string]string
-	oldRefs     map[Term]bool
-	storeInfo   map[Term]storeRec
+	ctx           *Ctx
+	curRoot       *Frame
+	parentOf      map[*Frame]*Frame
+	facts         map[Term]bool
+	knownNonNil   map[Term]bool
+	strDeclared   bool
+	strLits       map[string]Term
+	substrAx      bool
+	funcIDs       map[*ssa.Function]Term
+	defFuns       map[string]string
+	oldRefs       map[Term]bool
+	storeInfo     map[Term]storeRec
 	nonNilGlobals map[Term]bool
-	entryReads  map[Term]bool
+	entryReads    map[Term]bool
 
 	derived map[string]int // embedded struct field -> index (global, stable within a run)
 
